@@ -22,7 +22,7 @@ def run(ctx):
     recs = ctx.go_test(".", ["c34_"], "^TestVerifC34", infile=path, timeout=1500)
     ctx.absorb(recs)
     ctx.traces_validated = ctx.evaluations
-    ctx.exhaustive = True
+    ctx.exhaustive = True   # the scenario space is enumerated completely; every scenario meets Response.Write or Request.Write, the live bindings take a seed-chosen share
     ctx.rule = ("one evaluation = one scenario replayed through one binding (Response.Write, Request.Write, live server, "
                 "live client, StreamWriter) at one fault offset; non-trivial = fault, panic, size mismatch, multi-read chunking or a later replace/reset")
     ctx.assumptions = ["content length 0..%d, every composition of it as Read sizes, last data with/without io.EOF" % maxl,
